@@ -20,7 +20,7 @@ RULE = ("case = generated enum x one module per iterator mode compatible with ra
         "distinct by (repr, discriminants, order, base configuration)")
 
 PROFILE = S.profile(renames=0.05, dups=0.0, attrs=0.1, sizes=[("small", 72), ("medium", 10), ("large", 15), ("full8", 3)],
-                    anchors=["min", "max", "zero", "neg", "neg", "rand"])
+                    anchors=["min", "max", "zero", "neg", "neg", "rand", "narrow_max", "narrow_min"])
 
 
 def mode_variants(m):
@@ -38,7 +38,7 @@ def mode_variants(m):
 @st.composite
 def cases(draw, tier="quick"):
     spec = draw(S.enum_specs(PROFILE))
-    base = draw(S.configs(spec, forbid=("iter", "range"), p_on=0.2, split=False))
+    base = draw(S.configs(spec, forbid=("iter", "range"), p_on=0.2, split=False, p_sorted=0.15))
     m = M.RefEnum(spec)
     trip = draw(st.lists(st.tuples(st.integers(0, m.n - 1), st.integers(0, m.n - 1), S.histories(m.n, max_len=8)),
                          min_size=1, max_size=3))
